@@ -40,7 +40,7 @@ def run(check: Check) -> None:
             bad.append((s, r, {"flags": list(ch_c14.PYFLAGS[fl]), "ii": ii, "valid_python": True}))
     # parser objects with a history (native, the whole space the CrossHair harness `flag_switch` explores)
     for f1, f2, w in itertools.product(range(8), range(8), range(4)):
-        ch_c14.__dict__["__SHARD__"] = f2
+        ch_c14.__dict__.update({"__SHARD__": f2, "__F1__": f1, "__WN__": 4, "__M2__": 7})
         for ks in itertools.product(range(7), repeat=3):
             n += 1
             try:
@@ -86,7 +86,7 @@ def run(check: Check) -> None:
         if c == "parser-history":
             f1, f2, w, ks = extra["history"]
             call = {"args": [f1, f2, w] + ks, "kwargs": {}}
-            check.violation(f"parser-history::{s}", ch_c14.explain("flag_switch", call), {"kind": "ch_native", "module": "ch_c14", "function": "flag_switch", "call": call, "globals": {"__SHARD__": f2}})
+            check.violation(f"parser-history::{s}", ch_c14.explain("flag_switch", call), {"kind": "ch_native", "module": "ch_c14", "function": "flag_switch", "call": call, "globals": {"__SHARD__": f2, "__F1__": f1, "__WN__": 4, "__M2__": 7}})
             continue
         check.violation(f"{c}::{s}", f"{c}: formula {s!r} ({extra})", {"kind": "c14_string", "s": s, **extra})
     fns = {
@@ -97,7 +97,8 @@ def run(check: Check) -> None:
         "flags3": [{"SHARD": f, "N": (8 if thorough else 1), "M": (8 if thorough else 7)} for f in range(8)],
         "edit1": list(range(20 if thorough else 10)),
         "pyfrag": list(range(25)) if thorough else [0, 2, 3, 4, 12, 17, 18, 24],
-        "flag_switch": list(range(8)) if thorough else [0, 3, 7],
+        "flag_switch": ([{"SHARD": f2, "F1": f1, "WN": 4, "M2": 7} for f2 in range(8) for f1 in range(8)] if thorough
+                        else [{"SHARD": f2, "F1": f1, "WN": 2, "M2": 4} for f2, f1 in ((0, 7), (3, 0), (7, 0), (5, 2))]),
     }
     if thorough:
         fns["err3full"] = list(range(33))
